@@ -56,6 +56,9 @@ CHECKS = {
     "C11": ("cases", "exploration", "TLA+ Tokens.tla enumerates token sequences (60 spellings, length <= 3); each is passed to the lexer/parser, completion, F4 cycling, number formatter and cell input under catch_unwind and a watchdog",
             "All sequences of length <= 2 plus 12 000 sampled of length 3 (quick) / all of length 3 (thorough) x 7 APIs x 3 (thorough 30) language/locale pairs.",
             "Oracle is 'returns'; formulas with a range operator are not evaluated (whole-column arrays do not finish).", "4 C11"),
+    "C25": ("cases", "fault_enumeration", "TLA+ XlsxFaults.tla (package = parts = elements + attributes; fault actions; Import outcome in {ok, err}) enumerated by TLC over the vocabulary of real packages; every fault plan applied to the bytes and imported",
+            "Every single fault (element drop/duplicate/empty, attribute drop/garble x 6, part truncate/drop, zip truncate, byte flip) over up to 12 positions per part of 7 packages (~11 000 plans quick); thorough adds 40 positions and fault pairs (~57 000 plans).",
+            "Crash detection by catch_unwind, watchdog and process exit status; no oracle on whether a damaged file should load.", "4 C25"),
 }
 
 
@@ -93,7 +96,7 @@ def main():
         "engines": [
             {"name": "history", "path": "spec/History.tla, spec/MC_History.tla, spec/TraceHistory.tla, bin/fam_history.py, harness/src/{world,histrec,ops,gen,project}.rs", "serves_properties": ["C01", "C02", "C03", "C04", "C26"], "kind_free_text": "TLC model checking + bidirectional conformance"},
             {"name": "selection", "path": "spec/Selection.tla, spec/MC_Selection.tla, spec/TraceSelection.tla, harness/src/behreplay.rs", "serves_properties": ["C28"], "kind_free_text": "TLC model checking + bidirectional conformance"},
-            {"name": "cases", "path": "spec/{Calendar,Grid,Lang,F4,NumberInput,NumberFormat}.tla, bin/fam_cases.py, harness/src/cases.rs", "serves_properties": ["C08", "C09", "C11", "C29", "C30", "C19", "C20", "C21", "C22", "C23", "C34"], "kind_free_text": "TLC case enumeration with expected results, replayed on the implementation"},
+            {"name": "cases", "path": "spec/{Calendar,Grid,Lang,F4,NumberInput,NumberFormat}.tla, bin/fam_cases.py, harness/src/cases.rs", "serves_properties": ["C08", "C09", "C11", "C25", "C29", "C30", "C19", "C20", "C21", "C22", "C23", "C34"], "kind_free_text": "TLC case enumeration with expected results, replayed on the implementation"},
             {"name": "structure", "path": "spec/TraceWellFormed.tla", "serves_properties": ["C27"], "kind_free_text": "TLC trace validation of a state predicate"},
         ],
         "checks": checks,
